@@ -162,6 +162,26 @@ func buildPools(r rng, n int) *apiPools {
 			})
 			p.clIDs = append(p.clIDs, fmt.Sprintf("q%d-%d", k, ci))
 			p.cashLts = append(p.cashLts, namedBytes{"cashletter-without-controls", nb, false})
+			// a long cash letter whose LAST item has two image view details and one image view data record: stored as
+			// posted; the Writer refuses it, but only after it has rendered (and flushed) several kilobytes
+			if len(c.Bundles) > 0 && len(c.Bundles[len(c.Bundles)-1].Checks) > 0 {
+				vc := deepCopyFile(&icl.File{CashLetters: []icl.CashLetter{c}}).CashLetters[0]
+				vc.ID = fmt.Sprintf("v%d-%d", k, ci)
+				bs := vc.Bundles
+				for len(vc.Bundles) < 12 {
+					vc.Bundles = append(vc.Bundles, bs...)
+				}
+				lastB := deepCopyFile(&icl.File{CashLetters: []icl.CashLetter{{Bundles: []*icl.Bundle{bs[len(bs)-1]}}}}).CashLetters[0].Bundles[0]
+				cd := lastB.Checks[len(lastB.Checks)-1]
+				cd.ImageViewDetail = []icl.ImageViewDetail{baseImageViewDetail(), baseImageViewDetail()}
+				cd.ImageViewData = []icl.ImageViewData{mkIVData(r, genOpts{})}
+				cd.ImageViewAnalysis = nil
+				vc.Bundles = append(vc.Bundles, lastB)
+				if vb, err := json.Marshal(vc); err == nil {
+					p.clIDs = append(p.clIDs, vc.ID)
+					p.cashLts = append(p.cashLts, namedBytes{"cashletter-view-count-mismatch", vb, false})
+				}
+			}
 			// a cash letter whose addenda A leave the truncation indicator out (stored as posted)
 			tb := editJSON(cb, func(path string, m map[string]any) {
 				if _, ok := m["truncationIndicator"]; ok {
@@ -820,8 +840,20 @@ func runAPI(cfg *config, prop string) *Report {
 				directed = append(directed, directedHist{frb, reqs})
 			}
 		}
-		if cfg.tier != "thorough" && len(directed) > 8 {
-			directed = directed[:8]
+		// a file whose rendering fails late (after kilobytes of output), read in turn with a file that renders: no
+		// answer may carry anything of the failed rendering
+		if bad := pick("cashletter-view-count-mismatch", nil); bad != nil && len(pools.jsonIDs) >= 2 && pools.jsonIDs[0] != "" && pools.jsonIDs[1] != "" {
+			a, b := pools.jsonIDs[0], pools.jsonIDs[1]
+			reqs := []*apiReq{{Kind: "c1", Body: pools.jsonDocs[0], CT: "application/json", Src: "clean"}, {Kind: "c1", Body: pools.jsonDocs[1], CT: "application/json", Src: "clean"},
+				{Kind: "cont", ID: b}, {Kind: "add", ID: a, Body: bad.b}}
+			for i := 0; i < 6; i++ {
+				reqs = append(reqs, &apiReq{Kind: "cont", ID: a}, &apiReq{Kind: "cont", ID: b})
+			}
+			reqs = append(reqs, &apiReq{Kind: "get", ID: b}, &apiReq{Kind: "val", ID: a}, &apiReq{Kind: "cont", ID: b})
+			directed = append([]directedHist{{false, reqs}}, directed...)
+		}
+		if cfg.tier != "thorough" && len(directed) > 9 {
+			directed = directed[:9]
 		}
 		nHist += len(directed)
 	}
